@@ -1027,7 +1027,7 @@ class Context(MetadataContextMixin, object):
             self.set_description(description)
 
         if cache is None:
-            if input_value_specified:
+            if input_value_specified or input_value is not None:
                 cache=NoCache()
                 self.debug(f"Input value specified, cache {repr(cache)}")
             else:
